@@ -26,6 +26,7 @@ func init() {
 			"documented range or the function documents &optional/&rest/&key (B)",
 		Assumptions: []string{
 			"the statement is silent on: unknown keys (error or ignored, slip documents :allow-other-keys t), duplicate keys (leftmost or rightmost), whether &rest also holds the keyword arguments (CL) or stops before the first declared keyword (slip) - each is accepted",
+			"default values in the enumerated lambda lists are literals; default FORMS (a call, a quoted symbol) are a separate 24-case family with its own signatures",
 			"Part B: a non-arity error outside the documented range is inconclusive (the type check may precede the count check) and only counted",
 			"Part B: functions with &key are not called with more than the documented pairs (unknown/duplicate keys are allowed by the assumption above)",
 		},
